@@ -566,6 +566,8 @@ def native_create_race(ctx):
             L.append(f'spawn_free T{r}_{t} mkks n{r}')
         for t in range(4):
             L.append(f'join T{r}_{t}')
+    # deterministic variant: one creator is parked just before it takes the dictionary lock (after whatever it checked without the lock), another one creates the name meanwhile
+    L += ['arm_pause db.keyspace.before_lock', 'spawn PA mkks raced', 'wait_parked db.keyspace.before_lock 5000', 'spawn_free PB mkks raced', 'join PB', 'release db.keyspace.before_lock', 'join PA']
     L += ['list_ks', 'close', 'open workers=0', 'list_ks', 'close']
     spath, out = ctx.run_scenario('\n'.join(L) + '\n', tag='create-race')
     if any(c == 'CRASH' for _i, c, _r in out):
@@ -575,6 +577,8 @@ def native_create_race(ctx):
         ids = set(joins[r * 4:(r + 1) * 4])
         if len(ids) > 1:
             return True, spath, f'four threads opened the new keyspace n{r} at once and got different keyspaces: {sorted(ids)}'
+    if len(joins) >= 50 and joins[48] != joins[49]:
+        return True, spath, f'a creator parked before the dictionary lock and one that created the name meanwhile ended up with different keyspaces for the same name: {joins[48:50]}'
     v = native_lifecycle(ctx)
     return v
 
